@@ -418,7 +418,7 @@ func (c *Cookie) ParseBytes(src []byte) error {
 				}
 
 			case 's': // "samesite"
-				if utils.CaseInsensitiveCompare(bytestr.StrCookieSameSite, kv.key) {
+				if utils.CaseInsensitiveCompare(bytestr.StrCookieSameSite, kv.key) && len(kv.value) > 0 {
 					// Case-insensitive switch on first char
 					switch kv.value[0] | 0x20 {
 					case 'l': // "lax"
